@@ -160,7 +160,9 @@ func (s *Set) getTemplate(templatePath string, cacheAfterParsing bool) (t *Templ
 	t, err = s.getTemplateFromLoader(templatePath, cacheAfterParsing)
 	if err == nil && cacheAfterParsing && !s.developmentMode {
 		verifYield("getTemplate:put")
-		s.cache.Put(templatePath, t)
+		// store under the path that was loaded (with its extension): that is
+		// what getTemplateFromCache asks the cache for
+		s.cache.Put(t.Name, t)
 	}
 	return t, err
 }
